@@ -407,6 +407,9 @@ def run(chk):
     fn = m.fn("w_rand31_r")
     chk.note_fn(fn)
     check_single_evaluation(chk, m)
+    from .purity import check_no_static_influence
+    chk.rule("M6", "the generator's only state is *seedp: no value read from a mutable static object reaches the new state or the result")
+    check_no_static_influence(chk, "M6.stateless", m, fn, "the next state then depends on other generators' calls, not only on *seedp")
     dropped = []
     try:
         ps = paths.enumerate_paths(fn, m)
